@@ -3,8 +3,8 @@ import json, os
 import vlib
 
 PROP = "C04"
-NAMES = '{"f", "g", "h", "k", "x", "y", "z", "q", "acc", "hh", "inputs", "p1", "p2", "q1", "q2", "rs"}'
-CFG = ("SPECIFICATION Spec\nCONSTANTS Names = %s\n MaxDepth = 12\nINVARIANT CallSiteIndependent\nINVARIANT ArgsLaw\n"
+NAMES = '{"f", "g", "h", "k", "x", "y", "z", "q", "acc", "hh", "inputs", "p1", "p2", "q1", "q2", "rs", "a"}'
+CFG = ("SPECIFICATION Spec\nCONSTANTS Names = %s\n MaxDepth = 12\n Deep = DEEP\nINVARIANT CallSiteIndependent\nINVARIANT ArgsLaw\n"
        "INVARIANT Emit\nCHECK_DEADLOCK FALSE\n" % NAMES)
 TRACE_CFG = "CONSTANTS Names = %s\n MaxDepth = 12\n" % NAMES
 
@@ -13,7 +13,7 @@ def check(tier, seed, t0):
     thorough = tier == "thorough"
     vlib.build_harness()
     v = vlib.Verdict(PROP)
-    r = vlib.run_tlc("c04_mc", "MC_C04", CFG, workers=8, timeout=3000)
+    r = vlib.run_tlc("c04_mc", "MC_C04", CFG.replace("DEEP", "TRUE" if thorough else "FALSE"), workers=8, timeout=3000, xmx="12g")
     if not r.ok:
         raise vlib.ToolError("MC_C04: call-site independence / argument binding fails on the reference evaluator itself:\n" + r.violation)
     cases = r.lines.get("CASE", [])
